@@ -115,7 +115,8 @@ class Run:
         for tr in traces:
             s = {k: v for k, v in tr.items() if not k.startswith("_") and k not in strip}
             slim.append(s)
-        rej, n = tlc.validate(module, slim, self.scratch, shards=self.workers)
+        consts = {"AndLeftTrueNeedsFalseSet": True} if module == "TraceQuery" else None     # Layer B switch: the current code
+        rej, n = tlc.validate(module, slim, self.scratch, shards=self.workers, constants=consts)
         if count:
             self.traces_validated += n
         self.extra["validate_s"] = round(self.extra.get("validate_s", 0) + time.time() - t, 1)
